@@ -227,9 +227,9 @@ def eval_cases(files):
             errs.append((f, "cannot parse coqc output: " + o[-1000:]))
             continue
         body = m.group(1)
-        for t in re.finditer(r"\((\d+),\s*(\d+),\s*(\d+)\)", body):
+        for t in re.finditer(r"\(\s*(\d+)(?:%N)?,\s*(\d+)(?:%N)?,\s*(\d+)(?:%N)?\s*\)", body):
             res.append((f, int(t.group(1)), int(t.group(2)), int(t.group(3))))
-        if body.strip() not in ("[]", "nil") and not re.search(r"\(\d+", body):
+        if body.strip() not in ("[]", "nil") and not re.search(r"\(\s*\d+", body):
             errs.append((f, "unexpected R: " + body[:500]))
     for f in files:
         for ext in (".vo", ".vok", ".vos", ".glob"):
@@ -492,6 +492,21 @@ def run_check(pid, tier, seed, replay):
         notes.append("proof obligations not all discharged: " + broken_detail)
         log("PROOF BROKEN:", broken_detail)
 
+    # 2a. thorough tier: independent re-check of this property's theorems and everything they depend on
+    coqchk_note = None
+    if tier == "thorough" and not replay and not proof_broken and not os.environ.get("VERIF_NOCOQCHK"):
+        t = time.time()
+        rc3, o3 = sh(["timeout", "3000", "coqchk", "-silent", "-o", "-Q", ".", "V", "V.Props.%s" % pid], cwd=COQ, timeout=3100)
+        log("coqchk: rc=%d %.1fs" % (rc3, time.time() - t))
+        summ = o3[o3.find("CONTEXT SUMMARY"):] if "CONTEXT SUMMARY" in o3 else o3[-1500:]
+        coqchk_note = re.sub(r"\s+", " ", summ)[:1500]
+        ax = re.search(r"\* Axioms:\s*(.*?)\s*\* Constants", summ, flags=re.S)
+        bad = rc3 != 0 or not ax or ax.group(1).strip() != "<none>" or summ.count("<none>") < 4
+        if bad:
+            proof_broken = True
+            broken_detail = "coqchk -o V.Props.%s: %s" % (pid, coqchk_note)
+            notes.append(broken_detail)
+
     # 2b. diagnosis of generated-table obligations (concrete offending entries)
     diag = None
     if spec.get("diag"):
@@ -502,6 +517,7 @@ def run_check(pid, tier, seed, replay):
     side_all = {}
     fails = []
     harness_err = None
+    harness_crashed = False
     samples = []
     dist = {}
     ctxs = []
@@ -553,6 +569,20 @@ def run_check(pid, tier, seed, replay):
         rc2, o2 = run_harness(binp, g, pid, outdir, seed, n, shards, cases_in=cases_in, tier=tier,
                               timeout=g.get("timeout_" + tier, 1500))
         if rc2 != 0:
+            cur = os.path.join(outdir, "current_case.json")
+            if os.path.exists(cur) and re.search(r"^(panic:|fatal error:|SIGSEGV|goroutine \d+ \[running\])", o2, flags=re.M):
+                # the test process died while a case was running: that case is the concrete failing input
+                try:
+                    cin = json.load(open(cur)).get("input")
+                except ValueError:
+                    cin = None
+                m2 = re.search(r"^(panic:.*|fatal error:.*)$", o2, flags=re.M)
+                violations.append(("counterexample", "process-crash",
+                                   {"case": {"input": cin}, "harness": g["test"], "signature": "process-crash",
+                                    "observed": (m2.group(1) if m2 else "crash")[:300], "output_tail": o2[-2500:],
+                                    "meaning": "the code under test crashed the process (panic outside the calling goroutine or fatal runtime error) while this case was running"}, cin is None))
+                harness_crashed = True
+                break
             harness_err = "harness %s failed (rc=%d):\n%s" % (g["test"], rc2, o2[-4000:])
             break
         m = re.findall(r"^VERIF-DIST (.*)$", o2, flags=re.M)
@@ -646,6 +676,11 @@ def run_check(pid, tier, seed, replay):
             if sig in known_sigs:
                 known_printed.append((sig, known_sigs[sig]["text"], len(items)))
                 continue
+            if name == "diag_compile":
+                # the table obligations could not even be evaluated: no concrete offending entry is known
+                violations.append(("proof-break", "Diag/%s.v" % pid, {"obligation": "Diag/%s.v (table obligations) does not compile" % pid,
+                                                                      "error": items[:3]}, True))
+                continue
             violations.append(("counterexample", name, {"theorem": name, "offending_entries": items[:20]}, False))
     if proof_broken:
         has_ce = any(v[0] == "counterexample" for v in violations)
@@ -683,6 +718,7 @@ def run_check(pid, tier, seed, replay):
             "print_assumptions": pnote or "Closed under the global context (all)",
             "known_findings_seen": [k[0] for k in known_printed],
             "notes": notes,
+            "coqchk": coqchk_note or "not run in this tier (thorough tier runs coqchk -silent -o on V.Props.%s)" % pid,
         },
         "assumptions": spec.get("assumptions", []),
         "wall_s": round(time.time() - t0, 2),
@@ -693,7 +729,10 @@ def run_check(pid, tier, seed, replay):
     if spec.get("exhaustive"):
         ev["coverage"]["exhaustive"] = True
     write_evidence(pid, ev)
+    agg = {}
     for sig, text, cnt in known_printed:
+        agg[sig] = (text, max(cnt, agg.get(sig, ("", 0))[1]))
+    for sig, (text, cnt) in sorted(agg.items()):
         print("KNOWN-FINDING: property=%s %s [sig=%s, %d cases]" % (pid, text, sig, cnt))
     if violations:
         # one VIOLATION line per distinct violation
